@@ -140,3 +140,44 @@ def c10_to_bytes_overflow(case, out):
     """ThriftObject.to_bytes serialises into a 500000-byte buffer (larger only for RowGroup/FileMetaData by a
     heuristic); a longer structure is memcpy'd past its end."""
     return bool(case.get("allow_big")) and (out["sig"].startswith("crash") or out["sig"].startswith(("not_thrift", "reparse_raised", "roundtrip", "trailing", "value_changed", "lost_field", "conformance")))
+
+
+def _c03_features(case):
+    from vf.refpq import writer
+    try:
+        return writer.write_with_model(case["plan"])[1].features
+    except Exception:
+        return {}
+
+
+@predicate
+def c03_index_width(case, out):
+    """cencoding.read_bitpacked keeps its bit buffer in 32 bits: dictionary index widths >= 25 decode wrongly."""
+    f = _c03_features(case)
+    return (f.get("max_dict_bit_width") or 0) >= 25 and out["sig"].startswith(("value|", "read_raised|", "missing|", "crash"))
+
+
+@predicate
+def c03_delta_width(case, out):
+    """cencoding.delta_read_bitpacked: int8 bit counters / 64-bit buffer: miniblock widths >= 29 decode wrongly, large widths segfault."""
+    f = _c03_features(case)
+    return max(f.get("delta_widths") or [0]) >= 29 and out["sig"].startswith(("value|", "read_raised|", "missing|", "crash", "hang"))
+
+
+@predicate
+def c03_v2_delta_nulls(case, out):
+    """v2 DELTA_BINARY_PACKED page with nulls is refused: AssertionError 'null delta-int not implemented'."""
+    return "AssertionError@core.py:read_data_page_v2" in out["sig"] and "null delta-int not implemented" in out.get("detail", "")
+
+
+@predicate
+def c03_delta_empty_page(case, out):
+    """A DELTA_BINARY_PACKED page without any non-null value: delta_binary_unpack reads a header that is not there."""
+    if not case.get("allow_known"):
+        return False
+    for rg in case["plan"]["row_groups"]:
+        for name, cp in rg.get("chunks", {}).items():
+            if any(p.get("encoding") == "DELTA_BINARY_PACKED" for p in cp.get("pages", [])) and \
+                    all(v is None for v in rg["data"][name]):
+                return out["sig"].startswith(("crash", "read_raised", "value", "missing", "hang"))
+    return False
